@@ -184,6 +184,11 @@ public:
       uint64_t n = AT->getNumElements();
       r = "a" + std::to_string(n) + "_" + es;
       typeDecls.push_back("typedef struct " + r + " { " + e + " e[" + std::to_string(n ? n : 1) + "]; } " + r + ";");
+      json::Object ao;
+      ao["elt"] = e;
+      ao["n"] = (int64_t)n;
+      ao["eltsize"] = (int64_t)DL.getTypeAllocSize(AT->getElementType());
+      arrayInfo[r] = std::move(ao);
     } else if (auto *ST = dyn_cast<StructType>(T)) {
       r = structName(ST, true);
     } else
@@ -226,13 +231,22 @@ public:
       d += ";";
       typeDecls.push_back(d);
       json::Array fa;
-      for (auto &f : fields)
-        fa.push_back(f);
-      structInfo[n] = std::move(fa);
+      const StructLayout *SL = DL.getStructLayout(ST);
+      for (unsigned i = 0; i < fields.size(); ++i) {
+        json::Object fo;
+        fo["type"] = fields[i];
+        fo["offset"] = (int64_t)SL->getElementOffset(i);
+        fa.push_back(std::move(fo));
+      }
+      json::Object so;
+      so["fields"] = std::move(fa);
+      so["size"] = (int64_t)SL->getSizeInBytes();
+      structInfo[n] = std::move(so);
     }
     return n;
   }
   json::Object structInfo;
+  json::Object arrayInfo;
 
   unsigned eltBits(Type *E) {
     if (E->isIntegerTy())
